@@ -141,6 +141,7 @@ func main() {
 	chk.Assume("which symbol size the encoder chooses for a text is not part of this property: the whole-symbol comparison accepts any standard size whose capacity equals the emitted codeword count and only requires that the text family reaches all 30 sizes")
 	chk.Assume("high-level encodation choices are not part of this property: a stream is accepted if the reference stream decoder reads the text back and the padding after it follows the 253-state rule; Base-256 texts avoid lengths that exactly fill a symbol (known library defect, belongs to C02)")
 	chk.Assume("the decoder's 18 additional DMRE rows (ISO/IEC 21471) are outside the property and are not examined")
+	foreignPlacements() // must stay first: the first library calls of the process (also when replaying)
 	if chk.ReplayFile() != "" {
 		var c rcase
 		if err := mc.LoadReplay(chk.ReplayFile(), &c); err == nil {
